@@ -187,7 +187,12 @@ def gen_stack(rng):
             if ops[i] == "step" and rng.random() < 0.3:
                 ops.insert(i + 1, "orig")
     return {"what": "vecenv", "kind": kind, "n_envs": n_envs, "wrappers": wrappers, "ops": ops,
-            "n_stack": rng.randint(2, 4), "script_seed": rng.randint(0, 10**6)}
+            "n_stack": rng.randint(1, 4), "script_seed": rng.randint(0, 10**6),
+            # coverage audit: VecNormalize with every flag combination, training toggled off, frame stack channel orders,
+            # SubprocVecEnv as the base in the thorough tier
+            "vn": {"norm_obs": rng.random() < 0.8, "norm_reward": rng.random() < 0.8, "training": rng.random() < 0.8},
+            "channels_order": rng.choice([None, None, "last", "first"]) if kind in ("image_hwc",) else None,
+            "subproc": common.tier() == "thorough" and rng.random() < 0.1}
 
 
 def build_stack(case):
@@ -205,14 +210,25 @@ def build_stack(case):
         import numpy as np
         from gymnasium import spaces
         osp = spaces.Dict({"vec": spaces.Box(-1e5, 1e5, (2,), dtype=np.float32), "img": spaces.Box(0, 255, (8, 8, 3), dtype=np.uint8)})
-    venv = DummyVecEnv([se.make_env_fn(s, obs_kind=case["kind"], act_kind="discrete", obs_space=osp) for s in scripts])
+    fns = [se.make_env_fn(s, obs_kind=case["kind"], act_kind="discrete", obs_space=osp) for s in scripts]
+    if case.get("subproc"):
+        from stable_baselines3.common.vec_env import SubprocVecEnv
+
+        venv = SubprocVecEnv(fns, start_method="fork")
+    else:
+        venv = DummyVecEnv(fns)
+    vn = case.get("vn") or {"norm_obs": True, "norm_reward": True, "training": True}
+    first_stack = True
     for w in case["wrappers"]:
         if w == "framestack":
-            venv = VecFrameStack(venv, n_stack=case["n_stack"])
+            co = case.get("channels_order") if first_stack and isinstance(venv.observation_space, __import__("gymnasium").spaces.Box) and len(venv.observation_space.shape) == 3 else None
+            venv = VecFrameStack(venv, n_stack=case["n_stack"], channels_order=co)
+            first_stack = False
         elif w == "normalize":
-            venv = VecNormalize(venv, norm_obs=True, norm_reward=True)
+            venv = VecNormalize(venv, norm_obs=vn["norm_obs"], norm_reward=vn["norm_reward"], training=vn["training"])
         elif w == "normalize_dict":
-            venv = VecNormalize(venv, norm_obs=True, norm_reward=True, norm_obs_keys=["vec"])
+            venv = VecNormalize(venv, norm_obs=vn["norm_obs"], norm_reward=vn["norm_reward"], training=vn["training"],
+                                norm_obs_keys=["vec"] if vn["norm_obs"] else None)
         elif w == "transpose":
             venv = VecTransposeImage(venv)
         elif w == "extract_vec":
@@ -501,7 +517,10 @@ def compare_facts(model_facts, taps):
 
 def gen_buffer(rng):
     cls = rng.choice(["ReplayBuffer", "DictReplayBuffer", "DictReplayBuffer", "RolloutBuffer", "DictRolloutBuffer", "HerReplayBuffer"])
-    return {"what": "buffer", "cls": cls, "n_envs": rng.randint(1, 3), "size": rng.randint(2, 6), "memopt": cls == "ReplayBuffer" and rng.random() < 0.3,
+    memopt = cls == "ReplayBuffer" and rng.random() < 0.3
+    # (a full memory-optimised buffer of capacity 1 has no sampleable slot: sample() raises - C03's business, not aliasing)
+    return {"what": "buffer", "cls": cls, "n_envs": rng.randint(1, 3), "size": rng.randint(2 if memopt else 1, 6), "memopt": memopt,
+            "disc_obs": rng.random() < 0.3,
             "n_ops": rng.randint(3, 12), "seed": rng.randint(0, 10**6)}
 
 
@@ -524,6 +543,9 @@ def run_buffer(case):
     else:
         osp = spaces.Box(-10, 10, (2,), dtype=np.float32)
     asp = spaces.Box(-1, 1, (2,), dtype=np.float32)
+    disc_obs = (not is_dict) and case.get("disc_obs", False)
+    if disc_obs:
+        osp = spaces.Discrete(19)
 
     def mk():
         cls = getattr(B, case["cls"])
@@ -547,6 +569,8 @@ def run_buffer(case):
             def mkobs(base):
                 if is_dict:
                     return {"d": np.array([(base + i) % 7 for i in range(n)]), "v": np.full((n, 2), base, dtype=np.float32)}
+                if disc_obs:
+                    return np.array([(base + 9 + i) % 19 for i in range(n)])
                 return np.full((n, 2), base, dtype=np.float32)
             if do_add:
                 obs, nxt = mkobs(vals[0]), mkobs(vals[1])
